@@ -391,6 +391,9 @@ def report(a, seed, cons, results, extra, t_start):
             "functions_under_contract": funcs,
             "undecided": undecided[:50],
             "known_findings_reported": [k["key"] for k in known_hit],
+            "obligations_failing_as_listed_known_findings":
+                sum(1 for r_, o_, i_ in refuted
+                    if any(k["key"] == i_ for k in known)),
             "samples": samples,
             "extra_checks": [{k: v for k, v in e.items()
                               if k not in ("replay",)} for e in extra][:60],
